@@ -49,7 +49,8 @@ def run_cases(ctx, seeds, label):
     nproc = 16
     chunks = [seeds[i::nproc] for i in range(nproc) if seeds[i::nproc]]
     with mp.get_context('fork').Pool(len(chunks)) as pool:
-        results = [r for part in pool.map(_case_worker, chunks) for r in part]
+        from vlib import cov
+        results = [r for part in cov.pmap(ctx, pool, _case_worker, chunks) for r in part]
     results.sort(key=lambda r: r['seed'])
     good = [r for r in results if 'crash' not in r]
     per_file = 60
@@ -242,7 +243,67 @@ def atomicity(ctx):
                       {'kind': 'fastqueue_interleaving', 'case': p_}, found_input=True)
 
 
+# ---- re-entrant callbacks --------------------------------------------------------------------------
+REENTRANT_PROBE = r'''
+import sys, json, time
+sys.path.insert(0, %r)
+import pysyncobj.syncobj as S
+from harness import queue_threads as Q
+from pysyncobj import SyncObjConf
+out = []
+for qsize, use_batch in ((1, True), (1, False), (2, True), (3, False)):
+    Obj = Q.make_class(S)
+    o = Obj(SyncObjConf(autoTick=False, commandsQueueSize=qsize, appendEntriesUseBatch=use_batch))
+    t0 = time.time()
+    while not o._isLeader() and time.time() - t0 < 10:
+        o.doTick(0.05)
+    log = []
+    def cb(tag, o=o, log=log):
+        def f(r, e):
+            log.append((tag, r, e))
+            if tag in ('A', 'B') and e is not None and e != 0:
+                # a user callback that reacts to a failure by submitting again (a call from inside a callback)
+                o.add(100 + len(log), callback=cb(tag + '2'))
+        return f
+    for i in range(qsize + 1):
+        o.add(i, callback=cb('fill%%d' %% i))      # fills the queue
+    o.add(50, callback=cb('A'))                   # rejected: QUEUE_FULL; its callback submits again
+    o.add(51, callback=cb('B'))
+    t0 = time.time()
+    while time.time() - t0 < 1.5:
+        o.doTick(0.01)
+    tags = [t for t, _, _ in log]
+    expect = ['fill%%d' %% i for i in range(qsize + 1)] + ['A', 'B', 'A2', 'B2']
+    out.append({'commandsQueueSize': qsize, 'appendEntriesUseBatch': use_batch,
+                'never_fired': [t for t in expect if tags.count(t) == 0], 'fired_twice': [t for t in expect if tags.count(t) > 1],
+                'applied': list(o.applied), 'callbacks': [[t, e] for t, _, e in log]})
+    o.destroy()
+print(json.dumps(out))
+'''
+
+
+def reentrant_probe(ctx):
+    """every call made from inside a callback (here: a re-submission from the QUEUE_FULL callback of a rejected call) is
+    itself applied or reported exactly once - deterministic, single caller thread, real SyncObj with real sockets"""
+    p = subprocess.run([sys.executable, '-c', REENTRANT_PROBE % Q.REPO], cwd=coq.VERIF, env=impl_env(),
+                       stdout=subprocess.PIPE, stderr=subprocess.PIPE, text=True, timeout=200)
+    if p.returncode != 0:
+        ctx.monitor['reentrant_probe'] = {'error': p.stderr[-800:]}
+        ctx.obligation('reentrant-callback-probe-ran', False, p.stderr[-800:])
+        return
+    res = json.loads(p.stdout.strip().split('\n')[-1])
+    ctx.monitor['reentrant_probe'] = res
+    for r in res:
+        if r['never_fired'] or r['fired_twice']:
+            ctx.violation('C19 monitor on the implementation: calls made from inside a QUEUE_FULL callback (commandsQueueSize %d): '
+                          'callbacks %r never fired, %r fired twice; applied %r' % (r['commandsQueueSize'], r['never_fired'],
+                                                                                  r['fired_twice'], r['applied']),
+                          {'kind': 'reentrant_probe', 'result': r}, found_input=True)
+            break
+
+
 def correspondence(ctx):
+    reentrant_probe(ctx)
     atomicity(ctx)
     n = 1000 if ctx.quick else 12000
     base = ctx.seed * 1000003 % (2 ** 31)
